@@ -335,3 +335,47 @@ Proof. apply mols_conn. Qed.
 (* a chain of bonds never leaves a set closed under bonding *)
 Lemma conn_closed b S s x : closed b S -> In s S -> conn b s x -> In x S.
 Proof. intros C Is K. induction K as [|x l K IH Il]; [exact Is|exact (C x IH l Il)]. Qed.
+
+(* ---- the cell offsets of a molecule: every member is reached from the first atom (offset 0) by a chain of bonds whose image cells add up to the
+        member's recorded offset, so that position + offset.cell re-assembles the molecule along bonds ---- *)
+Inductive connc (b : list (Z * Z * vec)) (s : Z) (c0 : vec) : Z -> vec -> Prop :=
+  | connc_refl : connc b s c0 s c0
+  | connc_step x cx l cl : connc b s c0 x cx -> In (l, cl) (get_linked b x) -> connc b s c0 l (vadd cx cl).
+Definition qok (b : list (Z * Z * vec)) (s : Z) (c0 : vec) (q : list (Z * vec)) : Prop := forall a c, In (a, c) q -> connc b s c0 a c.
+Lemma visit_connc b s c0 c1 a1 q u l : connc b s c0 a1 c1 -> In l (get_linked b a1) -> qok b s c0 q -> qok b s c0 (fst (visit c1 (q, u) l)).
+Proof.
+  intros C1 Il Hq. unfold visit. destruct l as [a cl]. destruct (memz a u); cbn [fst]; [|exact Hq].
+  intros x c I. apply in_app_or in I. destruct I as [I|[E|[]]]; [apply Hq; exact I|]. injection E as <- <-. eapply connc_step; [exact C1|exact Il].
+Qed.
+Lemma fold_visit_connc b s c0 c1 a1 links : connc b s c0 a1 c1 -> (forall l, In l links -> In l (get_linked b a1)) -> forall q u,
+  qok b s c0 q -> qok b s c0 (fst (fold_left (visit c1) links (q, u))).
+Proof.
+  intros C1. induction links as [|l t IH]; intros HL q u Hq; cbn [fold_left]; [exact Hq|].
+  pose proof (visit_connc b s c0 c1 a1 q u l C1 (HL l (or_introl eq_refl)) Hq) as V. destruct (visit c1 (q, u) l) as [q1 u1]. cbn [fst] in V.
+  apply IH; [intros l0 I0; apply HL; right; exact I0|exact V].
+Qed.
+Definition offs (m : list molrec) : list (Z * vec) := map (fun r => (fst (fst r), snd (fst r))) m.
+Lemma bfs_connc b s c0 : forall fuel queue unsorted acc, qok b s c0 (offs acc ++ queue) ->
+  qok b s c0 (offs (fst (bfs fuel b queue unsorted acc))).
+Proof.
+  induction fuel as [|f IH]; intros queue unsorted acc INV; cbn [bfs].
+  - cbn [fst]. intros x c I. apply INV. apply in_or_app. left. exact I.
+  - destruct queue as [|[a1 c1] q]; [cbn [fst]; intros x c I; apply INV; apply in_or_app; left; exact I|].
+    assert (C1: connc b s c0 a1 c1) by (apply INV; apply in_or_app; right; left; reflexivity).
+    pose proof (fold_visit_connc b s c0 c1 a1 (get_linked b a1) C1 (fun l I => I) q unsorted) as FV.
+    destruct (fold_left (visit c1) (get_linked b a1) (q, unsorted)) as [q' u']. cbn [fst] in FV. apply IH.
+    intros x c I. apply in_app_or in I. destruct I as [I|I].
+    + unfold offs in I. rewrite map_app in I. apply in_app_or in I. destruct I as [I|[E|[]]]; [apply INV; apply in_or_app; left; exact I|].
+      cbn [fst snd] in E. injection E as <- <-. exact C1.
+    + apply FV; [|exact I]. intros y cy Iy. apply INV. apply in_or_app. right. right. exact Iy.
+Qed.
+Lemma mols_connc b n : forall fuel unsorted m, In m (mols fuel n b unsorted) -> exists s, qok b s (0, 0, 0) (offs m).
+Proof.
+  induction fuel as [|f IH]; intros unsorted m I; cbn [mols] in I; [destruct I|]. destruct unsorted as [|a u]; [destruct I|].
+  pose proof (bfs_connc b a (0, 0, 0) n [(a, (0,0,0))] u []) as BC. destruct (bfs n b [(a, (0,0,0))] u []) as [m0 u']. cbn [fst] in BC.
+  destruct I as [E|I]; [|exact (IH u' m I)]. subst. exists a. apply BC. intros x c [E|[]]. injection E as <- <-. apply connc_refl.
+Qed.
+Lemma molecules_offsets_l N b m : In m (molecules_m N b) -> exists s, forall a c nbs, In (a, c, nbs) m -> connc b s (0, 0, 0) a c.
+Proof.
+  intros I. destruct (mols_connc b _ _ _ m I) as [s H]. exists s. intros a c nbs Im. apply H. unfold offs. apply in_map_iff. exists (a, c, nbs). split; [reflexivity|exact Im].
+Qed.
